@@ -307,6 +307,52 @@ def f_ret(rng, sid):
     return sc
 
 
+def f_rnext(rng, sid):
+    """read / test handlers that answer NEXT or DATA_NEXT a few times before finishing, for commands with several
+    variables: every round must start from the freshly formatted automatic text"""
+    sc = Scenario(sid, cap=rng.choice([1, 2, 8]), buf=2 * rng.choice([64, 100]), uns=rng.choice([-1, 64]), mutex=0)
+    sc.group()
+    a = sc.slot(1, bytes([rng.randrange(256)]))
+    b = sc.slot(2, bytes([rng.randrange(256), rng.randrange(256)]))
+    c = sc.slot(6, b"ab\0\0\0\0")
+    vs = [Var(rng.choice([0, 1]), a, 1, 0, rng.choice([None, b"x"]), rng.choice([0, 1])), Var(2, b, 2, 0, rng.choice([None, b"y"]), rng.choice([0, 1, 2])),
+          Var(4, c, 6, 0, b"s", rng.choice([0, 1]))]
+    sc.cmd(Cmd(b"+H", rng.choice([None, b"help"]), rng.choice(["rt", "wrt", "r", "t"]), vs[:rng.choice([2, 3])]))
+    sc.cmd(Cmd(b"+E", None, "rt", vs[:2], group=-1))
+    rounds = [rng.choice(["2", "1", "2", "2/e:x" + hx(bytes(rng.choice(b"abc,:") for _ in range(rng.randint(1, 6))))]) for _ in range(rng.randint(1, 3))]
+    sc.op("hq " + ",".join(rounds + [rng.choice(["0", "3", "-1"])] + ["3"] * 6))
+    if rng.random() < 0.3:
+        sc.op("trig %d %d" % (rng.choice([0, 1]), rng.choice([1, 3])))
+    else:
+        sc.inp(b"AT+H" + rng.choice([b"?", b"=?"]) + rng.choice([b"\n", b"\r\n"]))
+    drain(sc, 4000)
+    return sc
+
+
+def f_listevt(rng, sid):
+    """a command list (PRINT_CMD_LIST_OK) while unsolicited events arrive: the events are triggered some calls after
+    the line has been fed, so that they become ready between two list entries"""
+    sc = Scenario(sid, cap=rng.choice([2, 3, 8]), buf=2 * rng.choice([48, 64, 100]), uns=rng.choice([-1, 48]), mutex=0)
+    sc.group()
+    a = sc.slot(1, b"\x05")
+    ncmd = rng.randint(1, 4)
+    for i in range(ncmd):
+        h = "".join(x for x in "wrxt" if rng.random() < 0.7) or "x"
+        sc.cmd(Cmd(b"+C%d" % i, None, h, [Var(1, a, 1)] if rng.random() < 0.5 else None))
+    sc.cmd(Cmd(b"#LS", None, "x", None))
+    sc.cmd(Cmd(b"+EV", None, "", [Var(1, a, 1, 0, b"v", 1)], group=-1))
+    sc.op("hq " + ",".join(["7"] * 40))
+    sc.inp(b"AT#LS" + rng.choice([b"\n", b"\r\n"]))
+    for _ in range(rng.randint(8, 40)):
+        sc.op("svc 1 %s" % _wpat(rng, 0.8))
+    for _ in range(rng.randint(1, 2)):
+        sc.op("trig %d 1" % (ncmd + 1))
+        for _ in range(rng.randint(0, 12)):
+            sc.op("svc 1 %s" % _wpat(rng, 0.8))
+    drain(sc, 8000)
+    return sc
+
+
 def f_sched(rng, sid):
     """event-free lines under adversarial read/write readiness; constant answers via scripts"""
     sc = gen.rand_desc(rng, sid, mutex=0, max_cmds=5)
@@ -738,7 +784,7 @@ def f_woevt(rng, sid):
 
 
 FAMILIES = {
-    "woevt": f_woevt, "flagmid": f_flagmid, "holdtick": f_holdtick,
+    "woevt": f_woevt, "listevt": f_listevt, "rnext": f_rnext, "flagmid": f_flagmid, "holdtick": f_holdtick,
     "mixed": f_mixed, "lines": f_lines, "table": f_table, "num": f_num, "buf": f_buf, "cap": f_cap, "ret": f_ret,
     "sched": f_sched, "evt": f_evt, "hold": f_hold, "mutex": f_mutex, "list": f_list, "access": f_access,
     "fit": f_fit, "bigambig": f_bigambig, "tabevt": f_tabevt,
@@ -758,11 +804,11 @@ PLAN = {
     "C03": [("cap", 60, 600), ("fit", 60, 600), ("buf", 40, 500), ("evt", 30, 300), ("mixed", 50, 600), ("list", 20, 300), ("num", 20, 300)],
     "C04": [("num", 120, 2000), ("lines", 30, 300), ("mixed", 20, 200)],
     "C05": [("buf", 120, 2000), ("lines", 30, 300), ("mixed", 20, 200)],
-    "C06": [("cap", 100, 1200), ("lines", 30, 300), ("ret", 80, 600), ("mixed", 20, 200)],
-    "C07": [("access", 60, 800), ("fit", 100, 1500), ("lines", 40, 400), ("mixed", 20, 200)],
+    "C06": [("cap", 100, 1200), ("lines", 30, 300), ("ret", 60, 500), ("rnext", 40, 300), ("mixed", 20, 200)],
+    "C07": [("access", 60, 800), ("fit", 100, 1500), ("rnext", 60, 500), ("ret", 30, 300), ("lines", 40, 400), ("mixed", 20, 200)],
     "C08": [("access", 100, 1200), ("woevt", 40, 500), ("lines", 30, 300), ("mixed", 20, 200)],
     "C09": [("lines", 100, 1200), ("table", 40, 400), ("flagmid", 40, 500), ("tabevt", 20, 300), ("mixed", 30, 300)],
-    "C10": [("ret", 200, 3000), ("lines", 30, 300), ("mixed", 30, 300)],
+    "C10": [("ret", 200, 3000), ("listevt", 40, 400), ("lines", 30, 300), ("mixed", 30, 300)],
     "C11": [("evt", 60, 700), ("mixed", 60, 700), ("sched", 30, 300), ("list", 20, 200)],
     "C12": [("sched", 100, 1200), ("mixed", 30, 300)],
     "C13": [("evt", 100, 1200), ("mixed", 40, 400), ("hold", 20, 200)],
@@ -771,7 +817,7 @@ PLAN = {
     "C16": [("mutex", 100, 1200), ("mixed", 40, 400)],
     "C17": [("mutex", 60, 600), ("evt", 40, 400)],
     "C18": [("mixed", 60, 700), ("evt", 50, 500), ("hold", 30, 300), ("sched", 20, 200)],
-    "C19": [("list", 120, 1500), ("fit", 100, 1200), ("ret", 60, 500), ("lines", 30, 300)],
+    "C19": [("list", 120, 1500), ("fit", 100, 1200), ("rnext", 50, 400), ("ret", 40, 400), ("lines", 30, 300)],
     "C20": [("lines", 100, 1200), ("cap", 30, 300), ("mixed", 20, 200), ("hold", 30, 300)],
 }
 
@@ -1009,7 +1055,7 @@ def meta_C07(seed, tier, bins, n=None):
                 init = init[:size]
             elif t == 4:
                 kk = rng.randint(0, size - 1)
-                init = bytes(rng.choice([x for x in range(1, 256) if x != 13]) if rng.random() < 0.5 else rng.choice(b'a"\\\n,z\t ') for _ in range(kk)) + bytes(size)
+                init = bytes(rng.choice([x for x in range(1, 256) if x != 13]) if rng.random() < 0.5 else rng.choice(b'a"\\\n,z\t \x08\x7f\x1b') for _ in range(kk)) + bytes(size)
                 init = init[:size]
             elif rng.random() < 0.4:
                 v = rng.choice([0, 1, 2 ** (8 * size - 1) - 1, 2 ** (8 * size - 1), 2 ** (8 * size) - 1, 9, 10, 99, 100])
